@@ -13,7 +13,7 @@ RULE = ("every sequence of length N over N symbols (every multiplicity pattern i
 ASSUMPTIONS = ["int/int true division is correctly rounded, so equality with float(Fraction) is exact",
                "table cells never contain the join characters '.' or '_' (outside the property); missing is spelled either '' or None/NaN, one spelling per table",
                "a 2-tuple is the legacy (alpha, beta) form and is not used as a plain sample container"]
-REQUIRED_CLASSES = {"all": ["reordering", "relabelling", "table-missing-cell", "table-collision-without-separator", "two-sample", "legacy-tuple", "two-table", "two-table-mixed-missing-spelling", "negative-int-cells", "tuple-or-mixed-type-elements", "line-break-in-cell"]}
+REQUIRED_CLASSES = {"all": ["reordering", "relabelling", "table-missing-cell", "table-collision-without-separator", "two-sample", "legacy-tuple", "two-table", "two-table-mixed-missing-spelling", "negative-int-cells", "tuple-or-mixed-type-elements", "line-break-in-cell", "dataframe-subclass", "separator-like-character-in-cell"]}
 MIN_OUTCOMES = 8
 
 LABELS = {
@@ -29,6 +29,8 @@ SPACES = ("A", "A ", " A", " ")          # cells that differ only by leading/tra
 INTS = (1, 11)
 NEGS = (-1, -2, 2)        # hash(-1) == hash(-2) in CPython
 FLOATS = (1000001.0, 1000002.0, 0.1234567, 0.1234568)    # differ only beyond 6 significant digits
+# characters an implementation might join cells with: a cell may hold any of them except '.' and '_' (the property's exclusion)
+SEPZOO = ("\x1f", "\x1e", "\t", ",", ";", "|", " ", "/", ":", "-", "\x00", "\\", "~", "#", "$", "\u00a0", "\u2028")
 LINES = ("A", "A\n", "\nA", "A\r", "A\u2028B", "A\nB")      # free-text cells with line-break characters: still one cell each
 EFLOATS = (1e16, 2e16, 1e-05)       # float cells whose text holds neither '.' nor '_' (1e+16, 2e+16, 1e-05); the first two are whole numbers
 
@@ -60,6 +62,10 @@ def spaces(tier):
                 for table in itertools.product(rows, repeat=n):
                     yield ("table", types, table)
 
+    def gen_sep():
+        for ch in SEPZOO:
+            yield ("sepzoo", ch)
+
     def gen_two_tables():
         types = ("t3", "i")
         rows = list(itertools.product(TEXT3, INTS))
@@ -89,6 +95,7 @@ def spaces(tier):
         Space("all-sequences-N-over-N", gen_seq, "every sequence of length N over N symbols, N=2..6 (quick) / 2..7 (thorough) x 4 relabellings x {list, ndarray, Series}; pc, pc_n", shards=32),
         Space("all-sample-pairs", gen_pairs, "all (a,b), |a|,|b| <= 4 over 3 symbols (quick) / <= 5 over 4 symbols (thorough); one case = one a against every b"),
         Space("all-small-tables", gen_tables, "tables of 2..4 rows x 1..3(4) typed columns over text cells {A,AB,BA,empty} / {A,AB,empty} and integer cells {1,11}; empty spelled '' / None / NaN", shards=32),
+        Space("separator-like-characters-in-cells", gen_sep, "for each of %d separator-like characters c: rows (AcB, C) / (A, BcC) / (Ac, B) / (A, cB) in 2- and 3-column tables (one and two tables): distinct rows never coincide" % len(SEPZOO)),
         Space("all-small-table-pairs", gen_two_tables, "pairs of 1..2(3)-row tables over (text{A,AB,empty}, int{1,11}) and (text, always-missing column); every pair of spellings of 'missing' (None, '', NaN) across the two tables"),
     ]
 
@@ -225,6 +232,8 @@ def check_case(case, acc):
         _check_table(acc, case)
     elif kind == "table1":
         _check_table(acc, ("table",) + case[1:3], spell=case[3])
+    elif kind == "sepzoo":
+        _check_sep(acc, case)
     elif kind == "tables2":
         _check_tables2(acc, case)
     else:
@@ -301,6 +310,18 @@ def _check_table(acc, case, spell=None):
                 acc.fail("pc_joint/column-subset%s" % ("/raised-" + r.type if raised(r) else ""), rcase, e2, r)
             else:
                 acc.ok()
+    # a table class derived from DataFrame (project-specific table types; here one that also records writes to itself)
+    from mc.canon import guarded_frame
+    acc.cls("dataframe-subclass")
+    g = guarded_frame(_mk(types, table, "none"))
+    for fn, args in (("pc", (g,)), ("pc_joint", (g, cols)), ("pc", (g, guarded_frame(_mk(types, table, "none"))))):
+        r = acc.call(getattr(pyrepseq, fn), *args)
+        e = exp if len(args) == 1 or fn == "pc_joint" else ref_pc2(table, table)
+        if not _exact(r, e) or g._verif_writes:
+            acc.fail("%s/table/dataframe-subclass%s" % (fn, "/written-to" if g._verif_writes else ""), ("table1", types, table, "none"), e, r, note="writes: %r" % (g._verif_writes,))
+            break
+    else:
+        acc.ok()
     r = acc.call(pyrepseq.pc_n, counts)
     if not _exact(r, exp):
         acc.fail("pc_n/value", ("pc_n", tuple(counts)), exp, r)
@@ -313,6 +334,28 @@ def _check_table(acc, case, spell=None):
         if not _exact(r, exp):
             acc.fail("pc/legacy-tuple", case, exp, r)
         else:
+            acc.ok()
+
+
+def _check_sep(acc, case):
+    import pandas as pd
+    import pyrepseq
+    ch = case[1]
+    acc.cls("separator-like-character-in-cell")
+    rows2 = [("A" + ch + "B", "C"), ("A", "B" + ch + "C"), ("A" + ch, "B"), ("A", ch + "B"), ("A", "B")]
+    rows3 = [("A", ch, "B"), ("A" + ch, "", "B"), ("A", "", ch + "B"), ("A", ch + ch, "B")]
+    for rows in (rows2, rows3):
+        for sub in itertools.combinations(range(len(rows)), 2):
+            tab = [rows[i] for i in sub] + [rows[sub[0]]]           # two distinct rows, the first one twice
+            cols = ["c%d" % i for i in range(len(tab[0]))]
+            df = pd.DataFrame(tab, columns=cols)
+            exp = ref_pc(tab)
+            exp2 = ref_pc2(tab, tab[:2])
+            for fn, args, e in (("pc", (df,), exp), ("pc_joint", (df, cols), exp), ("pc", (df, df.iloc[:2]), exp2), ("pc_joint", (df, cols, df.iloc[:2]), exp2)):
+                r = acc.call(getattr(pyrepseq, fn), *args)
+                if not _exact(r, e):
+                    acc.fail("%s/table/separator-like-character-in-cell" % fn, case, e, r, note="rows %r" % (tab,))
+                    return
             acc.ok()
 
 
